@@ -14,6 +14,7 @@ import (
 	"google.golang.org/grpc"
 	"google.golang.org/grpc/codes"
 	"google.golang.org/grpc/status"
+	"google.golang.org/protobuf/proto"
 )
 
 // RefLog is a spec-derived, in-memory reference implementation of the part of the Trillian log
@@ -30,6 +31,9 @@ type RefLog struct {
 	Roots   []RefRoot // every root ever published, in order (Roots[0] is the empty tree)
 	Calls   map[string]int
 	lastID  []byte
+	// Wire: every reply is passed through the protobuf wire encoding, as it is when it comes from a Trillian server over gRPC
+	// (an empty repeated field arrives as nil).
+	Wire bool
 }
 
 // RefRoot is one published log root.
@@ -44,6 +48,17 @@ func NewRefLog(tsNanos uint64) *RefLog {
 	l := &RefLog{tree: testonly.New(rfc6962.DefaultHasher), byID: map[string]*trillian.LogLeaf{}, tsNanos: tsNanos, Calls: map[string]int{}}
 	l.Roots = append(l.Roots, RefRoot{0, l.tree.Hash(), tsNanos})
 	return l
+}
+
+func overTheWire[M proto.Message](on bool, in, out M) (M, error) {
+	if !on {
+		return in, nil
+	}
+	b, err := proto.Marshal(in)
+	if err != nil {
+		return out, err
+	}
+	return out, proto.Unmarshal(b, out)
 }
 
 func (l *RefLog) slr() *trillian.SignedLogRoot {
@@ -149,20 +164,20 @@ func (l *RefLog) QueueLeaf(_ context.Context, in *trillian.QueueLeafRequest, _ .
 		id = rfc6962.DefaultHasher.HashLeaf(in.Leaf.LeafValue)
 	}
 	if old := l.byID[string(id)]; old != nil {
-		return &trillian.QueueLeafResponse{QueuedLeaf: &trillian.QueuedLogLeaf{Leaf: cloneLeaf(old), Status: status.New(codes.AlreadyExists, "duplicate").Proto()}}, nil
+		return overTheWire(l.Wire, &trillian.QueueLeafResponse{QueuedLeaf: &trillian.QueuedLogLeaf{Leaf: cloneLeaf(old), Status: status.New(codes.AlreadyExists, "duplicate").Proto()}}, &trillian.QueueLeafResponse{})
 	}
 	lf := &trillian.LogLeaf{LeafValue: append([]byte(nil), in.Leaf.LeafValue...), ExtraData: append([]byte(nil), in.Leaf.ExtraData...),
 		LeafIdentityHash: append([]byte(nil), id...)}
 	l.byID[string(id)] = lf
 	l.pending = append(l.pending, lf)
-	return &trillian.QueueLeafResponse{QueuedLeaf: &trillian.QueuedLogLeaf{Leaf: cloneLeaf(lf)}}, nil
+	return overTheWire(l.Wire, &trillian.QueueLeafResponse{QueuedLeaf: &trillian.QueuedLogLeaf{Leaf: cloneLeaf(lf)}}, &trillian.QueueLeafResponse{})
 }
 
 func (l *RefLog) GetLatestSignedLogRoot(_ context.Context, _ *trillian.GetLatestSignedLogRootRequest, _ ...grpc.CallOption) (*trillian.GetLatestSignedLogRootResponse, error) {
 	l.mu.Lock()
 	defer l.mu.Unlock()
 	l.Calls["GetLatestSignedLogRoot"]++
-	return &trillian.GetLatestSignedLogRootResponse{SignedLogRoot: l.slr()}, nil
+	return overTheWire(l.Wire, &trillian.GetLatestSignedLogRootResponse{SignedLogRoot: l.slr()}, &trillian.GetLatestSignedLogRootResponse{})
 }
 
 func (l *RefLog) GetConsistencyProof(_ context.Context, in *trillian.GetConsistencyProofRequest, _ ...grpc.CallOption) (*trillian.GetConsistencyProofResponse, error) {
@@ -173,13 +188,13 @@ func (l *RefLog) GetConsistencyProof(_ context.Context, in *trillian.GetConsiste
 		return nil, status.Error(codes.InvalidArgument, "reflog: bad consistency range")
 	}
 	if uint64(in.SecondTreeSize) > l.tree.Size() {
-		return &trillian.GetConsistencyProofResponse{SignedLogRoot: l.slr()}, nil // the caller sees a root that is too small
+		return overTheWire(l.Wire, &trillian.GetConsistencyProofResponse{SignedLogRoot: l.slr()}, &trillian.GetConsistencyProofResponse{}) // the caller sees a root that is too small
 	}
 	p, err := l.tree.ConsistencyProof(uint64(in.FirstTreeSize), uint64(in.SecondTreeSize))
 	if err != nil {
 		return nil, status.Error(codes.Internal, err.Error())
 	}
-	return &trillian.GetConsistencyProofResponse{SignedLogRoot: l.slr(), Proof: &trillian.Proof{Hashes: p}}, nil
+	return overTheWire(l.Wire, &trillian.GetConsistencyProofResponse{SignedLogRoot: l.slr(), Proof: &trillian.Proof{Hashes: p}}, &trillian.GetConsistencyProofResponse{})
 }
 
 func (l *RefLog) GetInclusionProofByHash(_ context.Context, in *trillian.GetInclusionProofByHashRequest, _ ...grpc.CallOption) (*trillian.GetInclusionProofByHashResponse, error) {
@@ -190,7 +205,7 @@ func (l *RefLog) GetInclusionProofByHash(_ context.Context, in *trillian.GetIncl
 		return nil, status.Error(codes.InvalidArgument, "reflog: bad request")
 	}
 	if uint64(in.TreeSize) > l.tree.Size() {
-		return &trillian.GetInclusionProofByHashResponse{SignedLogRoot: l.slr()}, nil
+		return overTheWire(l.Wire, &trillian.GetInclusionProofByHashResponse{SignedLogRoot: l.slr()}, &trillian.GetInclusionProofByHashResponse{})
 	}
 	var proofs []*trillian.Proof
 	for i := int64(0); i < in.TreeSize; i++ {
@@ -205,7 +220,7 @@ func (l *RefLog) GetInclusionProofByHash(_ context.Context, in *trillian.GetIncl
 	if len(proofs) == 0 {
 		return nil, status.Error(codes.NotFound, "reflog: no such leaf hash in that tree")
 	}
-	return &trillian.GetInclusionProofByHashResponse{SignedLogRoot: l.slr(), Proof: proofs}, nil
+	return overTheWire(l.Wire, &trillian.GetInclusionProofByHashResponse{SignedLogRoot: l.slr(), Proof: proofs}, &trillian.GetInclusionProofByHashResponse{})
 }
 
 func (l *RefLog) GetInclusionProof(_ context.Context, in *trillian.GetInclusionProofRequest, _ ...grpc.CallOption) (*trillian.GetInclusionProofResponse, error) {
@@ -216,13 +231,13 @@ func (l *RefLog) GetInclusionProof(_ context.Context, in *trillian.GetInclusionP
 		return nil, status.Error(codes.InvalidArgument, "reflog: bad request")
 	}
 	if uint64(in.TreeSize) > l.tree.Size() {
-		return &trillian.GetInclusionProofResponse{SignedLogRoot: l.slr()}, nil
+		return overTheWire(l.Wire, &trillian.GetInclusionProofResponse{SignedLogRoot: l.slr()}, &trillian.GetInclusionProofResponse{})
 	}
 	p, err := l.tree.InclusionProof(uint64(in.LeafIndex), uint64(in.TreeSize))
 	if err != nil {
 		return nil, status.Error(codes.Internal, err.Error())
 	}
-	return &trillian.GetInclusionProofResponse{SignedLogRoot: l.slr(), Proof: &trillian.Proof{LeafIndex: in.LeafIndex, Hashes: p}}, nil
+	return overTheWire(l.Wire, &trillian.GetInclusionProofResponse{SignedLogRoot: l.slr(), Proof: &trillian.Proof{LeafIndex: in.LeafIndex, Hashes: p}}, &trillian.GetInclusionProofResponse{})
 }
 
 func (l *RefLog) GetEntryAndProof(_ context.Context, in *trillian.GetEntryAndProofRequest, _ ...grpc.CallOption) (*trillian.GetEntryAndProofResponse, error) {
@@ -233,13 +248,13 @@ func (l *RefLog) GetEntryAndProof(_ context.Context, in *trillian.GetEntryAndPro
 		return nil, status.Error(codes.InvalidArgument, "reflog: bad request")
 	}
 	if uint64(in.TreeSize) > l.tree.Size() {
-		return &trillian.GetEntryAndProofResponse{SignedLogRoot: l.slr()}, nil
+		return overTheWire(l.Wire, &trillian.GetEntryAndProofResponse{SignedLogRoot: l.slr()}, &trillian.GetEntryAndProofResponse{})
 	}
 	p, err := l.tree.InclusionProof(uint64(in.LeafIndex), uint64(in.TreeSize))
 	if err != nil {
 		return nil, status.Error(codes.Internal, err.Error())
 	}
-	return &trillian.GetEntryAndProofResponse{SignedLogRoot: l.slr(), Proof: &trillian.Proof{LeafIndex: in.LeafIndex, Hashes: p}, Leaf: cloneLeaf(l.leaves[in.LeafIndex])}, nil
+	return overTheWire(l.Wire, &trillian.GetEntryAndProofResponse{SignedLogRoot: l.slr(), Proof: &trillian.Proof{LeafIndex: in.LeafIndex, Hashes: p}, Leaf: cloneLeaf(l.leaves[in.LeafIndex])}, &trillian.GetEntryAndProofResponse{})
 }
 
 func (l *RefLog) GetLeavesByRange(_ context.Context, in *trillian.GetLeavesByRangeRequest, _ ...grpc.CallOption) (*trillian.GetLeavesByRangeResponse, error) {
@@ -253,7 +268,7 @@ func (l *RefLog) GetLeavesByRange(_ context.Context, in *trillian.GetLeavesByRan
 	for i := in.StartIndex; i < in.StartIndex+in.Count && i < int64(len(l.leaves)); i++ {
 		rsp.Leaves = append(rsp.Leaves, cloneLeaf(l.leaves[i]))
 	}
-	return rsp, nil
+	return overTheWire(l.Wire, rsp, &trillian.GetLeavesByRangeResponse{})
 }
 
 func (l *RefLog) InitLog(_ context.Context, _ *trillian.InitLogRequest, _ ...grpc.CallOption) (*trillian.InitLogResponse, error) {
